@@ -67,13 +67,36 @@ func TestWriteFault(t *testing.T) {
 			if core.Tier() == "thorough" {
 				limit = 65536
 			}
+			var ks []int
 			if len(full) > limit {
-				c.Outcome("skipped-large")
-				return
+				// too large to enumerate: sample failure positions, biased to both ends
+				// and to the write-call boundaries of the fault-free run
+				for i := 0; i < 48; i++ {
+					switch c.Pick("k.class", 4) {
+					case 0:
+						ks = append(ks, c.Int("k.head", 0, 64))
+					case 1:
+						ks = append(ks, len(full)-1-c.Int("k.tail", 0, 40000))
+					case 2:
+						if len(ok.Bounds) > 0 {
+							ks = append(ks, ok.Bounds[c.Pick("k.bound", len(ok.Bounds))]+c.PickInt("k.boundDelta", -1, 0, 1))
+						}
+					default:
+						ks = append(ks, c.Int("k.any", 0, len(full)-1))
+					}
+				}
+				c.Probe("large artifact: failure positions sampled")
+			} else {
+				for k := 0; k <= len(full); k++ {
+					ks = append(ks, k)
+				}
 			}
 			rf := c.Bool("dst.readerFrom")
 			c.Event("%s: %d bytes, every failure position, readerFrom=%v", in.name, len(full), rf)
-			for k := 0; k <= len(full); k++ {
+			for _, k := range ks {
+				if k < 0 || k > len(full) {
+					continue
+				}
 				for mode := 0; mode < 3; mode++ {
 					short, transient := mode == 1, mode == 2
 					if transient && k == len(full) {
@@ -112,7 +135,9 @@ func TestWriteFault(t *testing.T) {
 					}
 				}
 			}
-			core.ExhaustiveDone("C19: every failure position k in [0,len] x {error, short write, one-shot failure} for one artifact", 1)
+			if len(full) <= limit {
+				core.ExhaustiveDone("C19: every failure position k in [0,len] x {error, short write, one-shot failure} for one artifact", 1)
+			}
 			c.Outcome("done")
 			c.Sig("%s/rf%v/len%d", in.name, rf, len(full)/64)
 		})
@@ -168,6 +193,18 @@ func TestHistory(t *testing.T) {
 			calls := c.Int("ncalls", 16, 96)
 			for k := 0; k < calls; k++ {
 				cl := pool[c.Pick("call", len(pool))]
+				if !solo[cl.ref].failed && len(solo[cl.ref].out) > 0 && c.Chance("call.failingDevice", 1, 6) {
+					// an unrelated earlier failure: this call's destination breaks part-way; what it
+					// returns is not judged here (C19 does), but it must leave nothing behind that
+					// changes the output of later calls
+					wp := core.WriterPlan{FailAt: c.Int("call.failAt", 0, len(solo[cl.ref].out)-1), Short: c.Bool("call.short"), Transient: c.Bool("call.transient")}
+					_, _, pi := runInto(c, cl.in, wp)
+					if pi != nil {
+						c.CheckTotal(cl.in.name, 0, pi, 0)
+					}
+					c.Probe("history contains a call whose destination failed")
+					continue
+				}
 				sw, err, pi := runInto(c, cl.in, core.WriterPlan{FailAt: -1, ReaderFrom: c.Bool("dst.readerFrom")})
 				if pi != nil {
 					c.CheckTotal(cl.in.name, 0, pi, 0)
